@@ -94,6 +94,95 @@ def simulate_goarch(ctx, bindir, goarches, tabled):
     return viol
 
 
+RUNTIME_CALLS = {"rt_sigreturn", "rt_sigprocmask", "sigaltstack", "futex", "sched_yield", "nanosleep", "madvise", "mmap", "munmap", "mprotect", "brk",
+                 "tgkill", "getpid", "gettid", "epoll_pwait", "clock_gettime", "restart_syscall"}
+
+
+def simulate_stubs(ctx, bindir, facts, histories):
+    """Executes, on this host, the files every non-Linux target compiles (grouped by file set): cmd/stubsim built with an overlay that strips the
+    build constraints of the files the host does not compile and empties the ones only the host compiles. Returns {target: stubrun facts}."""
+    host = next((f for f in facts if f["goos"] == "linux" and f["goarch"] == "amd64" and not f.get("error")), None)
+    out = {}
+    if host is None:
+        return out
+    hostfiles = set(host["files"])
+    groups = {}
+    for f in facts:
+        if f["goos"] not in LINUX_FAMILY and not f.get("error"):
+            groups.setdefault(tuple(sorted(f["files"])), []).append("%s/%s" % (f["goos"], f["goarch"]))
+    hsrc = os.path.dirname(bindir)
+    for gi, (files, targets) in enumerate(sorted(groups.items())):
+        run = {"executed": False, "supported_true": 0, "syscalls": [], "panics": 0, "histories": 0, "why": ""}
+        for t in targets:
+            out[t] = run
+        rep = {}
+        empty = ctx.path("stubov%d" % gi, "empty.go")
+        open(empty, "w").write("package seccomp\n")
+        for fn in set(files) - hostfiles:
+            src = os.path.join(vlib.REPO, fn)
+            dst = ctx.path("stubov%d" % gi, fn)
+            open(dst, "w").write("".join(l for l in open(src) if not l.startswith(("//go:build", "// +build"))))
+            rep[src] = dst
+        for fn in hostfiles - set(files):
+            rep[os.path.join(vlib.REPO, fn)] = empty
+        ov = ctx.path("stubov%d" % gi, "overlay.json")
+        json.dump({"Replace": rep}, open(ov, "w"))
+        binary = os.path.join(bindir, "stubsim_%d" % gi)
+        rc, o, e = ctx.run(["go", "build", "-overlay", ov, "-o", binary, "./cmd/stubsim"], cwd=hsrc, timeout=900)
+        if rc != 0:
+            run["why"] = "the file set of %s does not build on this host: %s" % (targets[0], e[-200:])
+            ctx.note(run["why"])
+            continue
+        ok = True
+        for h in histories:
+            rc, o, e = ctx.run([binary], input=json.dumps(h), timeout=60, env={"GODEBUG": "asyncpreemptoff=1"})
+            if rc != 0:
+                ok = False
+                run["why"] = "stubsim failed on %s: %s" % (h, e[-200:])
+                break
+            res = json.loads(o)
+            run["histories"] += 1
+            ctx.cov["evaluations"] += len(res["steps"])
+            for s in res["steps"]:
+                if s.get("panic"):
+                    run["panics"] += 1
+                    run.setdefault("witness", {"history": h, "steps": res["steps"]})
+                elif s["op"] == "Supported" and s["result"] != "false":
+                    run["supported_true"] += 1
+                    run.setdefault("witness", {"history": h, "steps": res["steps"]})
+        if not ok:
+            ctx.note(run["why"])
+            continue
+        # what the calls ask of the kernel: one long history under strace, the wired thread's lines between the markers
+        st = ctx.path("stubov%d" % gi, "strace.txt")
+        longh = ["Supported", "SetNoNewPrivs", "LoadFilter", "Supported", "LoadFilterZero", "Supported", "LoadFilter", "SetNoNewPrivs"]
+        try:
+            p = subprocess.run(["strace", "-f", "-o", st, binary], input=json.dumps(longh), capture_output=True, text=True, timeout=120, env={"GODEBUG": "asyncpreemptoff=1", "PATH": "/usr/bin:/bin"})
+            tid = str(json.loads(p.stdout)["tid"])
+            inside, seen, markers = False, [], 0
+            for line in open(st):
+                parts = line.split(None, 1)
+                if len(parts) < 2 or parts[0] != tid:
+                    continue
+                m = re.match(r"(\w+)\(", parts[1])
+                if not m:
+                    continue
+                if m.group(1) == "tuxcall":
+                    inside = "0xaaa" in parts[1]
+                    markers += 1
+                elif inside and m.group(1) not in RUNTIME_CALLS:
+                    seen.append(m.group(1))
+            if markers != 2 * len(longh):
+                ctx.note("strace of the stub run shows %d markers instead of %d: system calls not judged" % (markers, 2 * len(longh)))
+            else:
+                run["syscalls"] = sorted(set(seen))
+                run["executed"] = True
+        except Exception as ex:  # noqa
+            ctx.note("strace of the stub run failed (%s): system calls not judged, results are" % ex)
+            run["executed"] = True
+    return out
+
+
 def check(ctx, replay=None):
     th = ctx.tier == "thorough"
     bindir = ctx.harness()
@@ -132,6 +221,13 @@ def check(ctx, replay=None):
     if rc != 0:
         raise vlib.Machinery("archdump failed")
     lookups = {l["in"]: l for l in json.loads(out)["lookups"]}
+    # call histories of the stubs (Consts!StubHistories), exported by TLC
+    hfile = ctx.path("stubhist.json")
+    hmod = ("---- MODULE StubHist ----\nEXTENDS Consts, Json, SequencesExt\nASSUME JsonSerialize(\"%s\", SetToSeq(StubHistories(%d)))\nVARIABLE x\nInit == x = 0\n"
+            "Next == UNCHANGED x\nSpec == Init /\\ [][Next]_x\n====\n" % (hfile, 4 if th else 3))
+    stubdata = '---- MODULE ConstsData ----\nTargets == <<>>\nUAPI == <<>>\nENOSYSof == <<>>\n====\n'
+    ctx.tlc("StubHist", "SPECIFICATION Spec\nCHECK_DEADLOCK FALSE\n", files={"ConstsData.tla": stubdata, "StubHist.tla": hmod}, workers=1, timeout=300)
+    stubruns = simulate_stubs(ctx, bindir, facts, json.load(open(hfile)))
     u = uapi()
     rows = []
     nbuilt = 0
@@ -146,6 +242,7 @@ def check(ctx, replay=None):
         rows.append({"goos": f["goos"], "goarch": f["goarch"], "builds": builds, "consts": f.get("consts") or {},
                      "stubs": [{"func": s["func"], "returns": s.get("returns") or [], "calls": s["calls"]} for s in (f.get("stubs") or [])] if f["goos"] not in LINUX_FAMILY else [],
                      "imports": (f.get("imports") or []) if f["goos"] not in LINUX_FAMILY else [],
+                     "stubrun": {k: v for k, v in stubruns.get(t, {"executed": False, "supported_true": 0, "syscalls": [], "panics": 0}).items() if k in ("executed", "supported_true", "syscalls", "panics")},
                      "hastable": bool(lk["var"]), "getinfo_err": lk["err"]})
     if nbuilt < len(targets) * 0.6:
         raise vlib.Machinery("only %d of %d targets build" % (nbuilt, len(targets)))
@@ -164,17 +261,27 @@ def check(ctx, replay=None):
             if got != str(w):
                 viol.append(("%s: %s = %s, the kernel's value is %d" % (t, n, got, w), {"target": t, "const": n}))
         if r["goos"] not in LINUX_FAMILY:
-            if len(r["stubs"]) != 3:
-                viol.append(("%s: expected the three loader stubs, found %s" % (t, [s["func"] for s in r["stubs"]]), {"target": t}))
+            sr = r["stubrun"]
+            full = stubruns.get(t, {})
+            if sr["executed"]:
+                if sr["supported_true"]:
+                    viol.append(("%s: Supported() answers true in %d place(s) of the call histories, e.g. %s" % (t, sr["supported_true"], full.get("witness")), {"target": t, "witness": full.get("witness")}))
+                if sr["panics"]:
+                    viol.append(("%s: a loader stub panics, e.g. %s" % (t, full.get("witness")), {"target": t, "witness": full.get("witness")}))
+                if sr["syscalls"]:
+                    viol.append(("%s: the loader stubs perform system calls: %s" % (t, sr["syscalls"]), {"target": t}))
+            else:
+                # the file set cannot be executed on this host: the source text decides
+                for s in r["stubs"]:
+                    if s["func"] == "Supported" and s["returns"] != ["false"]:
+                        viol.append(("%s: stub Supported returns %s" % (t, s["returns"]), {"target": t, "func": s["func"]}))
+                bad = [i for i in r["imports"] if i in ("syscall", "golang.org/x/sys/unix", "unsafe")]
+                if bad:
+                    viol.append(("%s: the stub file imports %s" % (t, bad), {"target": t}))
+            # source-level facts are diagnostics once the stubs were executed
             for s in r["stubs"]:
-                if s["calls"]:
-                    viol.append(("%s: stub %s contains %d call expression(s)" % (t, s["func"], s["calls"]), {"target": t, "func": s["func"]}))
-                want = ["false"] if s["func"] == "Supported" else ["nil"]
-                if s["returns"] != want:
-                    viol.append(("%s: stub %s returns %s" % (t, s["func"], s["returns"]), {"target": t, "func": s["func"]}))
-            bad = [i for i in r["imports"] if i in ("syscall", "golang.org/x/sys/unix", "unsafe")]
-            if bad:
-                viol.append(("%s: the stub file imports %s" % (t, bad), {"target": t}))
+                if s["calls"] or (s["func"] != "Supported" and s["returns"] != ["nil"]):
+                    ctx.cov.setdefault("stub_source_notes", set()).add("%s: %d call expression(s), returns %s" % (s["func"], s["calls"], s["returns"]))
         if r["hastable"] != (r["goarch"] in ("386", "amd64", "arm", "arm64")):
             viol.append(("GOARCH %s: GetInfo %s" % (r["goarch"], "finds a table" if r["hastable"] else "fails: " + r["getinfo_err"]), {"goarch": r["goarch"]}))
         elif not r["hastable"] and "unsupported arch" not in r["getinfo_err"]:
@@ -192,15 +299,20 @@ def check(ctx, replay=None):
         raise vlib.Machinery("TLC (%s) and the witness search (%d) disagree" % (r["violated"], len(viol)))
     for msg, w in viol + simviol:
         ctx.violation(msg, {"witness": w, "targets": targets, "how": "./check C19 --replay <this file> (re-extracts the facts for the listed targets)"})
+    if "stub_source_notes" in ctx.cov:
+        for n in sorted(ctx.cov.pop("stub_source_notes")):
+            ctx.note("non-Linux stub source: " + n)
+    ctx.cov["stub_executions"] = [{"targets": len([t for t, r in stubruns.items() if r is run]), "executed": run["executed"], "histories": run["histories"], "why": run["why"]}
+                                  for run in {id(r): r for r in stubruns.values()}.values()]
     ctx.cov["distinct_nontrivial"] = nbuilt
     ctx.cov["exhaustive"] = th
     ctx.cov["targets"] = len(targets)
     ctx.cov["targets_built"] = nbuilt
     ctx.cov["rule"] = ("build targets: %s of `go tool dist list`; per target 15 constants read from the compiler's export data (go list -export, which also shows the target builds), "
-                       "stub bodies and imports by go/ast for non-Linux targets, GetInfo(GOARCH) for every GOARCH; distinct_nontrivial = targets that build"
+                       "the files of every non-Linux target executed on the host through a build overlay (all call histories of Consts!StubHistories, strace between markers), GetInfo(GOARCH) for every GOARCH; distinct_nontrivial = targets that build"
                        % ("all %d" % len(all_targets) if th else "%d representative ones (all in the thorough tier)" % len(targets)))
     ctx.sample({"target": "%s/%s" % (rows[0]["goos"], rows[0]["goarch"]), "consts": rows[0]["consts"]})
     ctx.assumptions += ["UAPI values from linux-libc-dev 6.1 headers; ENOSYS per architecture: mips family 89, every other Go linux port 38 (asm-generic)",
-                        "non-Linux stubs cannot be executed on this host: 'performs no system calls' is decided from the AST (no call expressions, no syscall imports)"]
+                        "non-Linux stubs are executed on the Linux host (their file set compiled here through an overlay): behaviour that depends on the foreign operating system's own libraries is not observable"]
     if replay:
         return ctx.finish()
